@@ -11,8 +11,8 @@ SPEC = {
     "level": "exploration",
     "design_ref": "DESIGN.md section 5, C15",
     "rule": ("MinGenSet: cases = every non-empty subset of {1..N} of size <= S x every total in 1..sum (totals below the largest number only with max_multiplicity > 1); inside: weight_type x max_multiplicity in {1,2,3,4} x "
-             "lowerbound in {1, min(2, optimum)} x remove_complement_values x remove_sums_of_two x partition constraints (every split of the total into 2 parts "
-             "drawn from sums of the numbers); oracle: enumerate multisets (partitions of the total into k positive parts) and test every number as a bounded-"
+             "lowerbound in {1, min(2, optimum)} x remove_complement_values x remove_sums_of_two x partition constraints (splits of the total into 2 and 3 parts "
+             "drawn from sums of the numbers, three equal parts, and a 3-part plus a 2-part constraint in both orders); oracle: enumerate multisets (partitions of the total into k positive parts) and test every number as a bounded-"
              "multiplicity sub-multiset sum. MinSetCover: every universe of <= U elements x every family of <= M non-empty subsets x weights in {1,2,3}^m "
              "(+ unit / None weights); oracle 2^m brute force. non-trivial = distinct instance with optimum >= 2 that was solved and compared"),
     "assumptions": ["lowerbound is only passed when it really is a lower bound (the parameter is the caller's promise)",
@@ -119,6 +119,14 @@ def run(case):
                 if m == 1:
                     for a in subsums[:3]:
                         pcs_list.append([[a, total - a]])
+                    # three parts, equal parts, and two constraints at once (the order of the constraints matters to an encoder)
+                    three = [[a, b, total - a - b] for a in subsums[:2] for b in subsums[:3] if a <= b and a + b < total][:3]
+                    pcs_list += [[c] for c in three]
+                    if total % 3 == 0 and [total // 3] * 3 not in three:
+                        pcs_list.append([[total // 3] * 3])
+                    if three and subsums:
+                        pcs_list.append([three[0], [subsums[-1], total - subsums[-1]]])
+                        pcs_list.append([[subsums[-1], total - subsums[-1]], three[0]])
                 configs = []
                 for wt in ("int", "float"):
                     for lb in sorted({1, min(2, k)}):
